@@ -1981,6 +1981,29 @@ impl Transaction {
                 removed_indices,
             } => {
                 final_fragments.extend(maybe_existing_fragments?.clone());
+                // A concurrent transaction may have dropped the indexed column after the
+                // index was built.  Index metadata must only name fields in the schema.
+                let field_ids = schema
+                    .fields_pre_order()
+                    .map(|f| f.id)
+                    .collect::<HashSet<_>>();
+                for new_index in new_indices {
+                    if let Some(missing) = new_index
+                        .fields
+                        .iter()
+                        .find(|field_id| !field_ids.contains(field_id))
+                    {
+                        if !is_system_index(new_index) {
+                            return Err(Error::invalid_input(
+                                format!(
+                                    "Cannot create index {}: field id {} is not in the schema (was the column dropped?)",
+                                    new_index.name, missing
+                                ),
+                                location!(),
+                            ));
+                        }
+                    }
+                }
                 final_indices.retain(|existing_index| {
                     !new_indices
                         .iter()
